@@ -18,7 +18,7 @@ Print Assumptions C14_reachable_inv.
 (* 413 if the excess is detected before anything was sent; afterwards nothing is forwarded *)
 Theorem C14_413 :
   forall w p, sl_wrote w = false -> sl_reached w = false -> sl_limit w < sl_written w + payload_len p ->
-    snd (sl_step w (CWrite p)) = [CHead 413] /\ sl_reached (fst (sl_step w (CWrite p))) = true.
+    snd (sl_step w (CWrite p)) = [CDel H_CL; CHead 413; CFlush] /\ sl_reached (fst (sl_step w (CWrite p))) = true.
 Proof. exact sl_413. Qed.
 Print Assumptions C14_413.
 
@@ -40,5 +40,5 @@ Print Assumptions C14_request.
 Example C14_nonvacuous :
   sl_transform 5 [CHead 204] = [CHead 204] /\
   sl_transform 5 [CHead 201; CWrite (PRaw 3); CWrite (PRaw 2); CWrite (PRaw 1)] = [CHead 201; CWrite (PRaw 3); CWrite (PRaw 2)] /\
-  sl_transform 5 [CWrite (PRaw 6)] = [CHead 413].
+  sl_transform 5 [CWrite (PRaw 6)] = [CDel H_CL; CHead 413; CFlush].
 Proof. vm_compute. repeat split; reflexivity. Qed.
